@@ -273,13 +273,13 @@ impl Space {
                 let mut start = w.base.clone();
                 let mut run: Vec<&str> = Vec::new();
                 for c in expr.split('/') {
-                    match c {
-                        "." => run.push("."),
-                        ".." => {
+                    match dot_kind(c) {
+                        Some(".") => run.push("."),
+                        Some(_) => {
                             run.push("..");
                             start = parent(&start).to_string();
                         },
-                        _ => break,
+                        None => break,
                     }
                 }
                 Space {
@@ -396,7 +396,7 @@ pub fn leading_components(expr: &str) -> Vec<Glob<'static>> {
     comps.push(cur);
     let mut out = Vec::new();
     for c in comps {
-        if c.is_empty() || c.contains("**") || c.contains("(?") || c == "." || c == ".." {
+        if c.is_empty() || c.contains("**") || c.contains("(?") || dot_kind(&c).is_some() {
             break;
         }
         // a separator inside a group
@@ -425,4 +425,75 @@ pub fn leading_components(expr: &str) -> Vec<Glob<'static>> {
         }
     }
     out
+}
+
+/// The alternatives of a negation text: `any([a, b])` and `{a,b}` are the same thing (an
+/// alternation), so a text that is wholly one alternation stands for its branches, recursively —
+/// `{b/**,c}` is the two alternatives `b/**` and `c`, of which the first is exhaustive. Anything
+/// that is not wholly an alternation (or whose branches would not build on their own) is one
+/// alternative. Works on the text; shares nothing with the crate's token trees.
+pub fn flatten_alternatives(text: &str) -> Vec<String> {
+    let chars: Vec<char> = text.chars().collect();
+    if chars.len() < 2 || chars[0] != '{' {
+        return vec![text.to_string()];
+    }
+    // the closer of the first brace must be the last character; split at commas of depth one
+    let mut parts: Vec<String> = Vec::new();
+    let mut cur = String::new();
+    let (mut depth, mut esc, mut class) = (0i32, false, false);
+    for (i, &ch) in chars.iter().enumerate() {
+        if esc {
+            cur.push(ch);
+            esc = false;
+            continue;
+        }
+        if class {
+            cur.push(ch);
+            if ch == '\\' {
+                esc = true;
+            }
+            else if ch == ']' {
+                class = false;
+            }
+            continue;
+        }
+        match ch {
+            '\\' => {
+                cur.push(ch);
+                esc = true;
+            },
+            '[' => {
+                class = true;
+                cur.push(ch);
+            },
+            '{' | '<' => {
+                depth += 1;
+                if depth > 1 {
+                    cur.push(ch);
+                }
+            },
+            '}' | '>' => {
+                depth -= 1;
+                if depth == 0 {
+                    if i + 1 != chars.len() || ch != '}' {
+                        return vec![text.to_string()];
+                    }
+                    parts.push(std::mem::take(&mut cur));
+                }
+                else {
+                    cur.push(ch);
+                }
+            },
+            ',' if depth == 1 => parts.push(std::mem::take(&mut cur)),
+            _ => cur.push(ch),
+        }
+    }
+    if depth != 0 || parts.len() < 2 {
+        return vec![text.to_string()];
+    }
+    let builds = |t: &str| matches!(crate::exec::guarded(|| Glob::new(t).is_ok()), Ok(true));
+    if !parts.iter().all(|p| builds(p)) {
+        return vec![text.to_string()];
+    }
+    parts.iter().flat_map(|p| flatten_alternatives(p)).collect()
 }
